@@ -137,7 +137,8 @@ func (gs GenesisState) Validate() error {
 		}
 
 		for i, consensusState := range cc.ConsensusStates {
-			if consensusState.Height.IsZero() {
+			// the EVM chains number their blocks from 0 and their light clients can be anchored at block 0
+			if consensusState.Height.IsZero() && clientType != exported.ETH && clientType != exported.BSC {
 				return fmt.Errorf("consensus state height cannot be zero")
 			}
 
